@@ -1,0 +1,23 @@
+//go:build verif
+
+// Contracts for deductive verification (read by /verif/govc). Comment-only: this file adds no code.
+package market
+
+// InitGenesis imports the module state; with pairwise distinct keys every listed record is stored as listed
+//@ func InitGenesis(ctx, k, genState)
+//@   modifies *
+//@   nopanic [C02.genesis.market.nopanic]
+//@   ensures [C18.init.market.worker] (forall a int, b int :: 0 <= a && a < b && b < len(genState.WorkerList) ==> genState.WorkerList[a].Workername != genState.WorkerList[b].Workername) ==>
+//@       forall j int :: 0 <= j && j < len(genState.WorkerList) ==> has(Worker, genState.WorkerList[j].Workername) && Worker[genState.WorkerList[j].Workername] == genState.WorkerList[j]
+//@   loop L1 invariant -1 <= rangeindex && rangeindex < len(genState0.WorkerList)
+//@   loop L1 invariant (forall a int, b int :: 0 <= a && a < b && b < len(genState0.WorkerList) ==> genState0.WorkerList[a].Workername != genState0.WorkerList[b].Workername) ==>
+//@       forall j int :: 0 <= j && j <= rangeindex ==> has(Worker, genState0.WorkerList[j].Workername) && Worker[genState0.WorkerList[j].Workername] == genState0.WorkerList[j]
+//@   loop L1 decreases [C02.genesis.term] len(genState0.WorkerList) - rangeindex
+
+// ExportGenesis lists every record of every store of the module exactly as stored
+//@ func ExportGenesis(ctx, k) (genesis)
+//@   modifies nothing
+//@   ensures [C18.export.market.nonnil] genesis != nil
+//@   ensures [C18.export.market.worker] (forall c string :: has(Worker, c) ==> contains(genesis.WorkerList, Worker[c]))
+//@       && (forall j int :: 0 <= j && j < len(genesis.WorkerList) ==> has(Worker, genesis.WorkerList[j].Workername) && Worker[genesis.WorkerList[j].Workername] == genesis.WorkerList[j])
+//@       && (forall a int, b int :: 0 <= a && a < b && b < len(genesis.WorkerList) ==> genesis.WorkerList[a].Workername != genesis.WorkerList[b].Workername)
